@@ -150,3 +150,232 @@ def pure_json(x):
     if isinstance(x, dict):
         return all(isinstance(k, str) and pure_json(v) for k, v in x.items())
     return False
+
+
+# --------------------------------------------------------------- document classifier
+# classify(m, t, doc, strict) -> 'accept' | 'reject' | 'unspecified'
+# Written from docs/json_serializer.rst, docs/evolve_spec.rst and the C06 statement.
+# `unspecified` wherever the documents are silent; only accept/reject are judged.
+
+ACCEPT, REJECT, UNSPEC = 'accept', 'reject', 'unspecified'
+
+
+def _all(vs):
+    vs = list(vs)
+    if REJECT in vs:
+        return REJECT
+    if UNSPEC in vs:
+        return UNSPEC
+    return ACCEPT
+
+
+def no_required_fields(m, d):
+    return all(f.default is not None or m.is_nullable(f.type) for f in m.struct_all_fields(d))
+
+
+def classify(m, t, x, strict):
+    import re
+    if t is None or (t.kind == 'prim' and t.name == 'Void'):
+        if x is None:
+            return ACCEPT
+        return REJECT if strict else UNSPEC
+    if x is None:
+        if m.is_nullable(t):
+            return ACCEPT
+        tgt = m.target(t)
+        if tgt is not None and tgt.kind == 'struct' and not tgt.subtypes and no_required_fields(m, tgt):
+            return UNSPEC      # decoder fills an empty struct by design
+        return REJECT
+    if t.kind == 'prim':
+        n = t.name
+        k = kind(x)
+        if n == 'Boolean':
+            return ACCEPT if k == 'bool' else REJECT
+        if n in PRIM_INTS:
+            if k == 'bool':
+                return UNSPEC
+            if k != 'number':
+                return REJECT
+            if isinstance(x, float):
+                if math.isnan(x) or math.isinf(x) or x != int(x):
+                    return REJECT
+                return UNSPEC   # 1.0 where an integer is expected: documents silent
+            lo, hi = PRIM_INTS[n]
+            return ACCEPT if t.args.get('min_value', lo) <= x <= t.args.get('max_value', hi) else REJECT
+        if n in PRIM_FLOATS:
+            if k == 'bool':
+                return UNSPEC
+            if k != 'number':
+                return REJECT
+            try:
+                f = float(x)
+            except OverflowError:
+                return REJECT
+            if math.isnan(f) or math.isinf(f):
+                return REJECT
+            lo, hi = PRIM_FLOATS[n]
+            if lo is not None and not (lo <= f <= hi):
+                return REJECT
+            if t.args.get('min_value') is not None and f < float(t.args['min_value']):
+                return REJECT
+            if t.args.get('max_value') is not None and f > float(t.args['max_value']):
+                return REJECT
+            return ACCEPT
+        if n == 'String':
+            if k != 'string':
+                return REJECT
+            if t.args.get('min_length') is not None and len(x) < t.args['min_length']:
+                return REJECT
+            if t.args.get('max_length') is not None and len(x) > t.args['max_length']:
+                return REJECT
+            if t.args.get('pattern') is not None and re.fullmatch(t.args['pattern'], x) is None:
+                return REJECT
+            return ACCEPT
+        if n == 'Bytes':
+            if k != 'string':
+                return REJECT
+            try:
+                raw = base64.b64decode(x.encode('ascii'), validate=True)
+                return ACCEPT if base64.b64encode(raw).decode('ascii') == x else UNSPEC
+            except Exception:
+                return UNSPEC if x.isascii() else REJECT   # lax base64 is not specified; non-ASCII cannot be base64
+        if n == 'Timestamp':
+            if k != 'string':
+                return REJECT
+            try:
+                dt = datetime.datetime.strptime(x, t.args['format'])
+            except ValueError:
+                return REJECT
+            return ACCEPT if dt.strftime(t.args['format']) == x else UNSPEC
+        raise AssertionError(t)
+    if t.kind == 'list':
+        if kind(x) != 'array':
+            return REJECT
+        if t.args.get('min_items') is not None and len(x) < t.args['min_items']:
+            return REJECT
+        if t.args.get('max_items') is not None and len(x) > t.args['max_items']:
+            return REJECT
+        return _all(classify(m, t.args['item'], v, strict) for v in x)
+    if t.kind == 'map':
+        if kind(x) != 'object':
+            return REJECT
+        return _all([classify(m, t.args['key'], k, strict) for k in x] +
+                    [classify(m, t.args['value'], v, strict) for v in x.values()])
+    d = m.lookup(t.ns, t.name)
+    if d.kind == 'alias':
+        inner = d.type
+        return classify(m, inner, x, strict)
+    if d.kind == 'struct':
+        return classify_struct(m, d, x, strict)
+    return classify_union(m, d, x, strict)
+
+
+def classify_struct(m, d, x, strict, flattened=False):
+    if kind(x) != 'object':
+        return REJECT
+    if d.subtypes:
+        tag = x.get('.tag')
+        if '.tag' not in x or kind(tag) != 'string':
+            return REJECT
+        leaves = dict(d.subtypes['items'])
+        if tag in leaves:
+            return classify_fields(m, m.lookup(*leaves[tag]), x, strict)
+        if strict or d.subtypes['closed']:
+            return REJECT
+        return classify_fields(m, d, x, strict)
+    return classify_fields(m, d, x, strict)
+
+
+def classify_fields(m, d, x, strict):
+    fields = {f.name: f for f in m.struct_all_fields(d)}
+    out = []
+    for k, v in x.items():
+        if not isinstance(k, str):
+            return UNSPEC
+        if k in fields:
+            f = fields[k]
+            if v is None:
+                if f.type.nullable or m.is_nullable(f.type):
+                    out.append(ACCEPT)
+                    continue
+                tgt = m.target(f.type)
+                if tgt is not None and tgt.kind == 'struct' and not tgt.subtypes and \
+                        no_required_fields(m, tgt):
+                    out.append(UNSPEC)
+                    continue
+                out.append(REJECT)
+                continue
+            out.append(classify(m, f.type, v, strict))
+        elif k.startswith('.tag'):
+            if k != '.tag':
+                out.append(UNSPEC)
+        else:
+            out.append(REJECT if strict else ACCEPT)
+    for name, f in fields.items():
+        if name not in x and f.default is None and not m.is_nullable(f.type):
+            tgt = m.target(f.type)
+            if tgt is not None and tgt.kind == 'struct' and not tgt.subtypes and no_required_fields(m, tgt):
+                out.append(UNSPEC)      # has_default(): filled with an empty struct by design
+            else:
+                out.append(REJECT)
+    return _all(out)
+
+
+def classify_union(m, d, x, strict):
+    tags = {f.name: f for f in m.union_all_fields(d)}
+    catch_all = [f.name for f in tags.values() if getattr(f, 'implicit', False)]
+    k = kind(x)
+    if k == 'string':
+        tag = x
+        if tag in tags:
+            f = tags[tag]
+            if tag in catch_all:
+                return REJECT
+            if f.type is None:
+                return ACCEPT
+            if m.is_nullable(f.type):
+                return UNSPEC      # bare string for a nullable member: accepted by the code, not promised
+            return REJECT
+        if catch_all and not strict:
+            return ACCEPT
+        return REJECT
+    if k != 'object':
+        return REJECT
+    if '.tag' not in x or kind(x['.tag']) != 'string':
+        return REJECT
+    tag = x['.tag']
+    if tag not in tags:
+        if catch_all and not strict:
+            return ACCEPT
+        return REJECT
+    if tag in catch_all:
+        return REJECT
+    f = tags[tag]
+    others = [kk for kk in x if kk not in ('.tag', tag)]
+    if any(not isinstance(kk, str) for kk in x):
+        return UNSPEC
+    if f.type is None:
+        if strict:
+            if (tag in x and x[tag] is not None) or others:
+                return REJECT
+            return ACCEPT
+        return ACCEPT
+    nullable = m.is_nullable(f.type)
+    tgt = m.target(f.type)
+    if tgt is not None and tgt.kind == 'struct' and not tgt.subtypes:
+        if nullable and len(x) == 1:
+            return ACCEPT
+        return classify_fields(m, tgt, x, strict)
+    # nested under the tag name
+    if tag not in x:
+        if others:
+            return REJECT if strict else UNSPEC
+        return ACCEPT if nullable else REJECT
+    if x[tag] is None:
+        # explicit null under the tag name: the documents promise explicit null
+        # for struct fields only
+        return UNSPEC if nullable else REJECT
+    inner = classify(m, f.type, x[tag], strict)
+    if others:
+        return REJECT if (strict or inner == REJECT) else UNSPEC
+    return inner
